@@ -112,7 +112,8 @@ Definition keeps (v : slot) (e : cevent) : bool := match e with CClean min | CCo
    TRACKED key (and per clean).  Stamps come from one atomic counter, read before the call and after the return:
    h_resp a < h_inv b means that a had returned before b was called. *)
 Record hop := mk_hop {
-  h_kind : N;            (* 0 SetBlockRootToSlot / block event, 1 BlockRootToSlot, 2 clean *)
+  h_kind : N;            (* 0 SetBlockRootToSlot / block event, 1 BlockRootToSlot, 2 clean,
+                            3 ExecutionChainHead: h_key = the height encoded in the hash returned, h_val = the height returned *)
   h_key : N;
   h_val : N;             (* set: the slot; clean: its minimum slot; lookup: the slot the node would answer (if h_fill) *)
   h_res : option N;      (* lookup: the slot returned, None = error (unknown to cache and node) *)
@@ -125,6 +126,12 @@ Record hop := mk_hop {
 Definition is_set (o : hop) : bool := h_kind o =? 0.
 Definition is_get (o : hop) : bool := h_kind o =? 1.
 Definition is_clean (o : hop) : bool := h_kind o =? 2.
+Definition is_head (o : hop) : bool := h_kind o =? 3.
+
+(* the execution chain head: hash and height are written in ONE section (setExecutionChainHead) and read in ONE
+   section (ExecutionChainHead); the heads the scenario delivers carry hash i with height i, so in every sequential
+   order a read returns the two halves of one head (or the initial 0, 0) *)
+Definition head_ok (o : hop) : bool := if is_head o then h_key o =? h_val o else true.
 Definition before (a b : hop) : bool := h_resp a <? h_inv b.
 
 (* an operation after whose return key k maps to v unless something removed it since: a set, or a lookup that
@@ -172,18 +179,25 @@ Definition hit_ok (rm : N -> N -> bool) (h : list hop) (l : hop) (v : N) : bool 
                     then negb (existsb (fun c => is_clean c && rm (h_val c) v && before s c && before c l) h)
                     else false) h.
 
+(* only the operations on the lookup's key and the cleans matter to it *)
+Definition relevant (l : hop) (h : list hop) : list hop :=
+  filter (fun o => if is_clean o then true else h_key o =? h_key l) h.
+
 Definition get_ok (rm : N -> N -> bool) (h : list hop) (l : hop) : bool :=
   if negb (is_get l) then true
-  else match h_res l with
-       | None => if negb (h_fill l) && h_asked l then miss_ok rm h l else false    (* an error: nobody knows the root *)
-       | Some v =>
-           if h_asked l
-           then (if h_fill l && (v =? h_val l) then miss_ok rm h l else false)       (* missed, the node's answer returned *)
-           else hit_ok rm h l v
-       end.
+  else
+    let hk := relevant l h in
+    match h_res l with
+    | None => if negb (h_fill l) && h_asked l then miss_ok rm hk l else false    (* an error: nobody knows the root *)
+    | Some v =>
+        if h_asked l
+        then (if h_fill l && (v =? h_val l) then miss_ok rm hk l else false)       (* missed, the node's answer returned *)
+        else hit_ok rm hk l v
+    end.
 
 (* necessary for the history to be the result of SOME sequential order of its operations that respects `before` *)
-Definition lin_ok_with (rm : N -> N -> bool) (h : list hop) : bool := forallb (get_ok rm h) h.
+Definition lin_ok_with (rm : N -> N -> bool) (h : list hop) : bool :=
+  forallb (fun o => if head_ok o then get_ok rm h o else false) h.
 
 (* with the model's clean deciding what a clean removes *)
 Definition lin_ok (h : list hop) : bool := lin_ok_with removes h.
